@@ -6,3 +6,6 @@ open Neutrino.BM
 #print axioms C01_only_valid_stored
 #print axioms C01_source_facts
 #print axioms loop_inv
+#print axioms C01_chain_valid
+#print axioms C01_checkpoints_passed
+#print axioms BM.inv_step_full
